@@ -54,6 +54,7 @@ def dispatch (op : String) (inp : J) (impl : Option J) : J :=
   | "uniqify" => UnitsDriver.uniqify facts inp
   | "removeUnused" => UnitsDriver.removeUnused facts (match impl.bind (·.get? "ok") with | some o => inp.set "implDoc" o | none => inp)
   | "sort" => UnitsDriver.sort inp
+  | "replace" => UnitsDriver.replace inp
   | "flatten" => FlatDriver.run facts inp
   | "ops" => .obj [("answers", OpsDriver.run facts inp)]
   | "mixin" =>
